@@ -293,7 +293,9 @@ class Ctx(object):
             'coverage': cov, 'assumptions': list(assumptions), 'wall_s': round(wall, 3),
             'violations': len(fresh),
         }
-        evpath = os.path.join(HERE, 'evidence', '%s.json' % self.prop)
+        # runs against a scratch copy (mutation / seeded-change runs) must not clobber the committed evidence
+        evdir = 'evidence' if os.path.realpath(REPO_ROOT) == '/repo' else 'evidence_mut'
+        evpath = os.path.join(HERE, evdir, '%s.json' % self.prop)
         os.makedirs(os.path.dirname(evpath), exist_ok=True)
         with open(evpath, 'w') as f:
             json.dump(ev, f, indent=1, default=repr)
@@ -376,7 +378,7 @@ def match_finding(findings, v):
 
 # ------------------------------------------------------------------ replay artefacts
 def write_replay(prop, fn, case, v):
-    d = os.path.join(HERE, 'replays', prop)
+    d = os.path.join(HERE, 'replays' if os.path.realpath(REPO_ROOT) == '/repo' else 'replays_mut', prop)
     os.makedirs(d, exist_ok=True)
     doc = {'property': prop, 'fn': fn.__name__ if fn is not None else None, 'case': case,
            'violation': v}
